@@ -43,6 +43,10 @@ type recStore struct {
 	// every Store ever issued, in order, for C08
 	allStores []storeEvent
 	keepAll   bool
+	// read-only fallback consulted without any lock (race family: a frozen common base)
+	parent map[string][]byte
+	// noRec: begin/end do nothing (the store is shared by concurrent goroutines)
+	noRec bool
 }
 
 var errInjected = errors.New("injected fault")
@@ -98,6 +102,9 @@ func (s *recStore) Load(ctx context.Context, name string) ([]byte, error) {
 		return nil, errInjected
 	}
 	b, ok := s.m[name]
+	if !ok && s.parent != nil {
+		b, ok = s.parent[name]
+	}
 	if s.rec {
 		s.events = append(s.events, storeEvent{s.seq, "load", name, nil, !ok})
 	}
@@ -109,6 +116,9 @@ func (s *recStore) Load(ctx context.Context, name string) ([]byte, error) {
 
 // begin starts recording an operation and clears fault counters.
 func (s *recStore) begin() {
+	if s.noRec {
+		return
+	}
 	s.mu.Lock()
 	s.rec = true
 	s.events = nil
@@ -119,6 +129,9 @@ func (s *recStore) begin() {
 
 // end stops recording and returns what the operation did.
 func (s *recStore) end() []storeEvent {
+	if s.noRec {
+		return nil
+	}
 	s.mu.Lock()
 	defer s.mu.Unlock()
 	s.rec = false
@@ -140,6 +153,9 @@ func (s *recStore) get(name string) ([]byte, bool) {
 	s.mu.Lock()
 	defer s.mu.Unlock()
 	b, ok := s.m[name]
+	if !ok && s.parent != nil {
+		b, ok = s.parent[name]
+	}
 	return b, ok
 }
 
